@@ -103,6 +103,13 @@ func (a Iv) Meet(b Iv) Iv { return a.meet(b) }
 // establish for the versioned expression expr.
 func (q *Q) GuardBound(expr string, at *ssa.BasicBlock) Iv { return q.guardBound(expr, at) }
 
+// GuardBoundFrom is GuardBound for an expression already known to lie in
+// base: disequalities tighten base's closed ends (len(x) >= 0 and
+// len(x) != 0 give len(x) >= 1).
+func (q *Q) GuardBoundFrom(expr string, at *ssa.BasicBlock, base Iv) Iv {
+	return q.guardBoundBase(expr, at, base)
+}
+
 type busyKey struct {
 	v  ssa.Value
 	at *ssa.BasicBlock
@@ -246,9 +253,11 @@ func (q *Q) resolve(s string) {
 
 // guardBound: the tightest bounds on expression s that every path from the
 // entry to block at establishes through branch conditions.
-func (q *Q) guardBound(s string, at *ssa.BasicBlock) Iv {
+func (q *Q) guardBound(s string, at *ssa.BasicBlock) Iv { return q.guardBoundBase(s, at, Iv{}) }
+
+func (q *Q) guardBoundBase(s string, at *ssa.BasicBlock, base Iv) Iv {
 	q.resolve(s)
-	out := Iv{}
+	out := base
 	// candidate thresholds
 	var los, his []int64
 	for _, c := range q.conds {
@@ -520,67 +529,98 @@ func arrayLen(t types.Type) int64 {
 // In strict mode the increasing counter must also be bounded above by a
 // guard on the path to the increment, so that phi+k cannot wrap.
 func (q *Q) monotonePhi(p *ssa.Phi) (Iv, bool) {
+	// the phis that feed each other (a counter updated in one arm of a
+	// conditional merges with itself before the loop header)
+	group := map[*ssa.Phi]bool{p: true}
+	work := []*ssa.Phi{p}
+	for len(work) > 0 && len(group) <= 8 {
+		x := work[len(work)-1]
+		work = work[:len(work)-1]
+		for _, e := range x.Edges {
+			if ph, ok := e.(*ssa.Phi); ok && !group[ph] && dependsOnPhi(ph, p, 0) {
+				group[ph] = true
+				work = append(work, ph)
+			}
+		}
+	}
+	if len(group) > 8 {
+		return Iv{}, false
+	}
 	var inits []int64
 	up, down, steps := true, true, 0
-	for i, e := range p.Edges {
-		if c, ok := ssau.ConstInt(e); ok {
-			inits = append(inits, c)
-			continue
-		}
-		bo, ok := e.(*ssa.BinOp)
-		if !ok || (bo.Op != token.ADD && bo.Op != token.SUB) || bo.X != ssa.Value(p) {
-			// a non-constant initial value with a known interval
-			if ph, isPhi := e.(*ssa.Phi); isPhi && ph == p {
+	type stepEdge struct {
+		bo   *ssa.BinOp
+		pred *ssa.BasicBlock
+		to   *ssa.Phi
+		k    int64
+	}
+	var stepEdges []stepEdge
+	for x := range group {
+		for i, e := range x.Edges {
+			if c, ok := ssau.ConstInt(e); ok {
+				inits = append(inits, c)
 				continue
 			}
-			iv := q.onEdge(e, p.Block().Preds[i], p.Block())
-			if !iv.LoOK && !iv.HiOK {
-				return Iv{}, false
+			if ph, ok := e.(*ssa.Phi); ok && group[ph] {
+				continue
 			}
-			// treat as an initial value only when it does not depend on p
-			if dependsOn(e, p, 0) {
-				return Iv{}, false
+			bo, ok := e.(*ssa.BinOp)
+			var base *ssa.Phi
+			if ok {
+				base, _ = bo.X.(*ssa.Phi)
 			}
-			if iv.LoOK && iv.HiOK {
-				inits = append(inits, iv.Lo, iv.Hi)
-			} else if iv.LoOK {
-				inits = append(inits, iv.Lo)
-				down = false
-			} else {
-				inits = append(inits, iv.Hi)
-				up = false
-			}
-			continue
-		}
-		k, ok := ssau.ConstInt(bo.Y)
-		if !ok {
-			return Iv{}, false
-		}
-		if bo.Op == token.SUB {
-			k = -k
-		}
-		steps++
-		if k < 0 {
-			up = false
-		}
-		if k > 0 {
-			down = false
-		}
-		if q.Strict && k != 0 {
-			// the stepped value itself must be bounded on the guarded side at
-			// the back edge: i+1 with i < n cannot wrap
-			g := q.guardBound(q.F.E(p), bo.Block())
-			if k > 0 && !g.HiOK {
-				// a step of one cannot wrap below any strict upper guard
-				// (i < n implies i < MaxInt64); rangeindex form: the guard is
-				// on phi+1 in the header
-				if !(k == 1 && q.hasStrictGuard(q.F.E(p), bo.Block(), true)) && !q.edgeBoundAny(q.F.E(bo), bo.Block()) {
+			if !ok || (bo.Op != token.ADD && bo.Op != token.SUB) || base == nil || !group[base] {
+				// an initial value that does not depend on the group
+				for g := range group {
+					if dependsOn(e, g, 0) {
+						return Iv{}, false
+					}
+				}
+				iv := q.onEdge(e, x.Block().Preds[i], x.Block())
+				if !iv.LoOK && !iv.HiOK {
 					return Iv{}, false
 				}
+				if iv.LoOK && iv.HiOK {
+					inits = append(inits, iv.Lo, iv.Hi)
+				} else if iv.LoOK {
+					inits = append(inits, iv.Lo)
+					down = false
+				} else {
+					inits = append(inits, iv.Hi)
+					up = false
+				}
+				continue
 			}
-			if k < 0 && !g.LoOK {
-				if !(k == -1 && q.hasStrictGuard(q.F.E(p), bo.Block(), false)) {
-					return Iv{}, false
+			k, ok := ssau.ConstInt(bo.Y)
+			if !ok {
+				return Iv{}, false
+			}
+			if bo.Op == token.SUB {
+				k = -k
+			}
+			steps++
+			if k < 0 {
+				up = false
+			}
+			if k > 0 {
+				down = false
+			}
+			stepEdges = append(stepEdges, stepEdge{bo, x.Block().Preds[i], x, k})
+			if q.Strict && k != 0 {
+				// the step must not wrap: a strict guard on the counter (i < n
+				// implies i < MaxInt64), the rangeindex header guard, or a small
+				// step (a counter cannot be stepped 2^43 times)
+				g := q.guardBound(q.F.E(base), bo.Block())
+				small := k <= 1<<20 && k >= -(1<<20)
+				if k > 0 && !g.HiOK && !small {
+					if !(k == 1 && q.hasStrictGuard(q.F.E(base), bo.Block(), true)) && !q.edgeBoundAny(q.F.E(bo), bo.Block()) {
+						return Iv{}, false
+					}
+				}
+				if k < 0 && !g.LoOK && !small {
+					if !(k == -1 && q.hasStrictGuard(q.F.E(base), bo.Block(), false)) {
+						return Iv{}, false
+					}
 				}
 			}
 		}
@@ -601,18 +641,11 @@ func (q *Q) monotonePhi(p *ssa.Phi) (Iv, bool) {
 	}
 	// the far end, from the guards the stepped value passed to re-enter
 	farOK := true
-	for i, e := range p.Edges {
-		bo, ok := e.(*ssa.BinOp)
-		if !ok || bo.X != ssa.Value(p) {
-			continue
-		}
-		k, _ := ssau.ConstInt(bo.Y)
-		if bo.Op == token.SUB {
-			k = -k
-		}
-		pred := p.Block().Preds[i]
-		g := q.guardBound(q.F.E(bo), pred).meet(q.edgeBound(q.F.E(bo), pred, p.Block()))
-		g2 := q.guardBound(q.F.E(p), bo.Block())
+	for _, se := range stepEdges {
+		bo, k, pred := se.bo, se.k, se.pred
+		base := bo.X.(*ssa.Phi)
+		g := q.guardBound(q.F.E(bo), pred).meet(q.edgeBound(q.F.E(bo), pred, se.to.Block()))
+		g2 := q.guardBound(q.F.E(base), bo.Block())
 		if up && !down {
 			switch {
 			case g.HiOK:
@@ -641,6 +674,26 @@ func (q *Q) monotonePhi(p *ssa.Phi) (Iv, bool) {
 		out.LoOK, out.Lo = true, lo
 	}
 	return out, out.LoOK || out.HiOK
+}
+
+// dependsOnPhi: phi x (transitively through phis and +/- steps) reads p.
+func dependsOnPhi(x, p *ssa.Phi, d int) bool {
+	if d > 6 {
+		return false
+	}
+	for _, e := range x.Edges {
+		switch v := e.(type) {
+		case *ssa.Phi:
+			if v == p || dependsOnPhi(v, p, d+1) {
+				return true
+			}
+		case *ssa.BinOp:
+			if ph, ok := v.X.(*ssa.Phi); ok && (ph == p || dependsOnPhi(ph, p, d+1)) {
+				return true
+			}
+		}
+	}
+	return false
 }
 
 // edgeBoundAny: the block ends in a branch whose condition bounds expression s
